@@ -228,7 +228,7 @@ impl ServerState {
         }
     }
 
-    fn wrap(&self, inner: &B, wrap: Wrap) -> B {
+    pub fn wrap(&self, inner: &B, wrap: Wrap) -> B {
         match wrap {
             Wrap::Tpkt => proto::tpkt(inner),
             Wrap::X224 => proto::tpkt(&proto::x224_data(inner)),
